@@ -102,17 +102,19 @@ def run(chk):
     # DTLS 1.3 with a server flight of several datagrams: selective acknowledgement / retransmission (spec/Handshake13F.tla)
     hsreplay13f.model_check(chk)
     hsreplay13f.vacuity(chk)
-    s13f = hsreplay13f.generate(chk, limit=12000 if chk.quick else 60000)
-    rows, summ = hsreplay13f.replay(chk, binary, s13f)
-    nlaw = 0
-    for r in rows:
-        for v in [x for x in r.get("law", []) if "C17" in x][:1]:
-            nlaw += 1
-            chk.violation({"kind": "timer-law-13f", "what": v,
-                           "script13f": {"scen": hsreplay13f.SCEN, "steps": s13f[r["script"]]["steps"], "qmax": hsreplay13f.QMAX, "bkcap": 3}})
-        if r.get("diverge") and not r.get("law"):
-            chk.note("DIVERGENCE model/code (1.3 fragmented flight script %d): %s" % (r["script"], r["diverge"][0]))
-    chk.parts["replay13f"] = {"scripts": summ["scripts"], "law_violations": nlaw, "diverged": summ.get("diverged", 0)}
+    for variant, lim in (("", 12000 if chk.quick else 60000), ("m400", 6000 if chk.quick else 30000)):
+        s13f = hsreplay13f.generate(chk, limit=lim, variant=variant)
+        rows, summ = hsreplay13f.replay(chk, binary, s13f, variant=variant)
+        nlaw = 0
+        for r in rows:
+            for v in [x for x in r.get("law", []) if "C17" in x][:1]:
+                nlaw += 1
+                chk.violation({"kind": "timer-law-13f", "what": v,
+                               "script13f": {"scen": hsreplay13f.scen_of(variant), "steps": s13f[r["script"]]["steps"], "qmax": hsreplay13f.QMAX, "bkcap": 3}})
+            if r.get("diverge") and not r.get("law"):
+                chk.note("DIVERGENCE model/code (1.3 fragmented flight %s script %d): %s" % (variant, r["script"], r["diverge"][0]))
+        chk.parts["replay13f" + variant] = {"scripts": summ["scripts"], "law_violations": nlaw, "diverged": summ.get("diverged", 0)}
+        del s13f
     # (B ii) the timer function in-package
     hb = vlib.build("handshake")
     wd = vlib.scratch("c17")
